@@ -183,10 +183,16 @@ def analyse(unit, js, diags):
         props = None
         # the primary span (the failed clause) first; a secondary span that covers a whole body says nothing about which clause
         for s in prim + [x for x in spans if not x.get('is_primary') and x['line_end'] - x['line_start'] <= 3]:
+            # a clause that spans several labelled lines (one `ensures` of `&&&` conjuncts) is ONE obligation for the verifier:
+            # it is reported under its first label and attributed to the properties of ALL its labels (any conjunct may be
+            # the one that failed)
             for ln in range(s['line_start'], s['line_end'] + 1):
                 if ln in unit.labels:
-                    props, label = unit.labels[ln]
-                    break
+                    p_, l_ = unit.labels[ln]
+                    if label is None:
+                        props, label = list(p_), l_
+                    else:
+                        props = props + [x for x in p_ if x not in props]
             if label:
                 break
         p0 = prim[0] if prim else None
